@@ -13,6 +13,11 @@ Lemmas (exact rational arithmetic, z3; names as they appear in the evidence):
                                 y stays below 10, and  y >= 1: R(y 10^p) = n ;  y < 1: R(10 y 10^p) = 10 n  (same decimal)
   lemma.round.sci-scale[p]    the same with an arbitrary positive decade scale E (v = w E): the statement does not
                                 depend on the exponent
+  lemma.round.bare-fixed      no arithmetic in between, fixed point: print -> nearest double -> print is the identity on the text
+                                (needs round-half-even in format() and a correctly rounded float(); uniform grid, no binades)
+  (bare scientific fields with p <= 14 use lemma.round.sci[p] with |D| <= u; p = 15 is NOT stable, e.g.
+   1.0000000000000001e-11 prints 1.000000000000000e-11, which reads back as a double that prints 9.999999999999999e-12;
+   p >= 16 prints 17 significant digits, which identify a double - classical result, trusted)
   ground.margin[...]          the numeric hypothesis (6.02 u 10^k < 10^-p resp. 30.1 u < 0.5 10^-p) in exact rationals, and
                                 its agreement with the floating-point evaluation used by stability_condition
 A failed margin means the lemma does not apply: stability_condition then reports the field as not stable.
@@ -101,6 +106,31 @@ def prove_sci(p: int, led: Ledger):
     E, xx = z3.Reals("E xx")
     st, be, secs, _ = check_valid([E > 0, *base, xx == (w * E) * (1 + D)], xx == y * E)
     led.record(f"pyvc.rounding::lemma.round.sci-scale[p={p}]", "lemma", st, be, secs, detail="x = (w E)(1 + D) = (w (1 + D)) E for every decade scale E > 0: the mantissa statement is exponent-independent")
+
+
+def prove_bare_fixed(led: Ledger):
+    """No arithmetic between parsing and printing, fixed-point format (uniform decimal grid, unit = 1 after scaling):
+    t0 = x0 10^p is printed as n (round-half-even), x1 = float(text) is a double at least as near to n as the double x0 is
+    (float() returns a nearest double), and x1 is printed as r (round-half-even).  Then r = n."""
+    n, r, m, k = z3.Ints("n r m k")
+    t0, t1, a, b = z3.Reals("t0 t1 a b")
+    nr, rr = z3.ToReal(n), z3.ToReal(r)
+    half = _q(Fraction(1, 2))
+    hyp = [z3.Or(a == t0 - nr, a == nr - t0), a >= t0 - nr, a >= nr - t0, a <= half,  # a = |t0 - n| <= 1/2
+           z3.Or(b == t1 - rr, b == rr - t1), b >= t1 - rr, b >= rr - t1, b <= half,  # b = |t1 - r| <= 1/2
+           t1 - nr <= a, nr - t1 <= a,  # |t1 - n| <= |t0 - n|
+           z3.Implies(a == half, n == 2 * m), z3.Implies(b == half, r == 2 * k)]  # ties go to the even neighbour
+    st, be, secs, _ = check_valid(hyp, r == n, timeout_ms=20000)
+    led.record("pyvc.rounding::lemma.round.bare-fixed", "lemma", st, be, secs, detail="print (half-even) -> nearest double -> print (half-even) returns the same decimal on a uniform grid")
+    s = z3.Solver()
+    s.set("timeout", 10000)
+    s.add(*hyp, n == 0, t0 == -half, t1 == half, r == 0, m == 0, k == 0)
+    led.cover("pyvc.rounding::bare-fixed.tie-case-reachable", s.check() == z3.sat)
+    # the tie rule is needed: with an arbitrary tie-breaking rule the statement must be refutable (sanity of the encoding)
+    s = z3.Solver()
+    s.set("timeout", 10000)
+    s.add(*hyp[:-2], r != n)
+    led.cover("pyvc.rounding::bare-fixed.refutable-without-half-even", s.check() == z3.sat)
 
 
 def prove_for_fields(led: Ledger, fixed_pk, sci_p):
